@@ -382,6 +382,55 @@ class PoolGen:
             self.emit({"op": "Burst", "reqs": [dict(q, nonce=q["nonce"] + 1) for q in reqs]})
 
 
+def stack_script(seed, ntraces, nops, driver, workdir):
+    """full stack: real agents (pool.Remote signing, keep-alive loops on the fake clock) against the real pool"""
+    rnd = random.Random(seed)
+    ops = []
+    for _ in range(ntraces):
+        price = rnd.choice([1, 7, 60])
+        ops.append({"op": "Reset", "pool": True, "nodes": NODES + ["x9"], "accts": ACCTS, "unit": "1", "price": price, "interval": 60,
+                    "hasmin": False, "minbal": 0, "maxhosts": rnd.choice([0, 0, 2]), "fee": 0, "haswmin": False, "wmin": 0})
+        agents = {}
+        for i, n in enumerate(NODES):
+            host = "10.2.0.%d" % (i + 1)
+            full = n in HOSTS
+            agents["g" + n] = n
+            ops.append({"op": "AgentNew", "agent": "g" + n, "ident": n, "conn": "k%d" % (i + 1), "addr": host + ":4000", "host": host,
+                        "full": full, "kind": rnd.choice(["geth", "geth", "parity"]), "target": 0 if full else rnd.choice([1, 2, 3]),
+                        "strict": rnd.random() < 0.3, "interval": 60, "uri": ""})
+        running = set()
+        order = list(agents)
+        rnd.shuffle(order)
+        for g in order[:rnd.choice([3, 4, 5])]:
+            ops.append({"op": "AgentStart", "agent": g})
+            running.add(g)
+        for _ in range(nops):
+            x = rnd.random()
+            if x < 0.35:
+                ops.append({"op": "Sleep", "d": rnd.choice([1, 30, 59, 60, 61, 90, 119, 121, 180, 300])})
+            elif x < 0.65:
+                g = rnd.choice(order)
+                me = agents[g]
+                peers = rnd.sample([n for n in NODES if n != me], rnd.choice([0, 1, 2, 3]))
+                ops.append({"op": "AgentPeers", "agent": g, "peers": peers})
+            elif x < 0.78 and running:
+                ops.append({"op": "AgentUpdate", "agent": rnd.choice(sorted(running))})
+            elif x < 0.86 and running:
+                g = rnd.choice(sorted(running))
+                ops.append({"op": "AgentStop", "agent": g})
+                running.discard(g)
+            elif x < 0.96:
+                g = rnd.choice(order)
+                if g not in running:
+                    ops.append({"op": "AgentStart", "agent": g})
+                    running.add(g)
+            else:
+                ops.append({"op": "AddNodeBalance", "id": rnd.choice(NODES), "amt": rnd.choice([5, 50])})
+        for g in sorted(running):
+            ops.append({"op": "AgentStop", "agent": g})
+    return {"driver": driver, "dir": "%s/badger-stack-%d" % (workdir, seed), "seed": seed, "ops": ops}
+
+
 def nonce_race_script(seed, nbursts, driver, workdir):
     """C05: racing copies of one nonce, real parallelism"""
     rnd = random.Random(seed)
